@@ -830,7 +830,16 @@ def aobj_member(f: Folder, obj: AObj, attr: str) -> Any:
         return _BoundMethod(obj, m)
     v = repo.lookup_class_attr(obj._cls_, attr)
     if v is not None:
-        return Folder({}, repo, obj._cls_.module, obj._cls_, f.hook).fold(v)
+        from .fold import PROCESS_STATE
+
+        if id(v) in PROCESS_STATE:
+            return PROCESS_STATE[id(v)][1]
+        owner = next((k for k in repo.mro(obj._cls_) if isinstance(k, ClassInfo) and attr in k.assigns), obj._cls_)
+        val = Evaluator({}, repo, owner.module, owner, f.hook).fold(v)
+        if isinstance(val, (set, list, dict, bytearray)) or type(val).__name__ == "AObj":
+            # a mutable object made in the class body is ONE object for the life of the process, shared by all instances
+            PROCESS_STATE[id(v)] = (v, val)
+        return val
     for k in repo.mro(obj._cls_):
         if isinstance(k, ClassInfo) and attr in k.inner:
             return k.inner[attr]  # a class nested in the instance's class (`self.CastMode`)
